@@ -103,8 +103,12 @@ def run_case(case, rec):
                               % (sorted(ob["eq_params"].keys()), sorted(eqp.keys())))
                 continue
             for i in range(b):
-                r = int(round(bi[i, 0]))  # the row tag
                 rec.count("obs_rows_checked")
+                if not np.all(np.isfinite(bi[i])):
+                    rec.violation("obs/input-not-a-table-row", "batch input row %s is not a row of the table (non-finite), "
+                                  "batch %d of n=%d b=%d" % (bi[i], k, n, b))
+                    continue
+                r = int(round(bi[i, 0]))  # the row tag
                 if not (0 <= r < n) or not np.array_equal(bi[i], pin2[r]):
                     rec.violation("obs/input-not-a-table-row", "batch input row %s is not a row of the table" % bi[i])
                     continue
@@ -221,8 +225,12 @@ def run_case(case, rec):
                     continue
                 bi, bv = np.asarray(entry["pinn_in"]), np.asarray(entry["val"])
                 for i in range(bi.shape[0]):
-                    r = int(round(bi[i, 0] - 100000.0 * (j + 1)))
                     rec.count("obs_rows_checked")
+                    if not np.all(np.isfinite(bi[i])):
+                        rec.violation("multi/input-from-other-network-or-row",
+                                      "network %s: input row %s is not a row of its own table (non-finite)" % (nm, bi[i]))
+                        continue
+                    r = int(round(bi[i, 0] - 100000.0 * (j + 1)))
                     if not (0 <= r < n) or not np.array_equal(bi[i], pins[nm][r]):
                         rec.violation("multi/input-from-other-network-or-row",
                                       "network %s: input row %s is not a row of its own table" % (nm, bi[i]))
